@@ -239,6 +239,7 @@ def read_side(ctx, facts):
     # the returned value: Ok(as_offset({days, secs * 1e9 + fraction, default offset}, Fixed(zone)))
     nret = good_ret = 0
     frac_ok = set()
+    zone_kinds = set()
     for args, st0, outs in res:
         for st, rv in outs:
             if rv[0] != 'e' or 0 not in rv[2] or 1 in rv[2]:
@@ -290,6 +291,11 @@ def read_side(ctx, facts):
                     base, s, e = Rd.range_of(po[0], po[1]) if po[1] is not None else (None, None, None)
                     if base != inp:
                         why = why or 'the zone is not read from the input string'
+                    else:
+                        zr = zone_start(Rd, st, po, s, e, inp)
+                        zone_kinds.add(zr[0])
+                        if zr[1]:
+                            why = why or zr[1]
             if why:
                 problems.append(('return', why))
             else:
@@ -299,6 +305,10 @@ def read_side(ctx, facts):
     fl = rec.get('frac_lengths')
     if fl is not None and fl != set(range(1, 10)):
         problems.append(('fraction', f'fractions of {sorted(x for x in fl if x is not None)} digits are converted; every length 1..=9 must be (longer ones reduced to 9)'))
+    ctx.rule('C13-R3 the zone is the rest of the input after the seconds (byte 19) or after the whole run of fraction digits', 2, len(zone_kinds & {'after seconds', 'after the digit run'}),
+             floor=2, sample={'forms': sorted(zone_kinds)})
+    if not {'after seconds', 'after the digit run'} <= zone_kinds:
+        problems.append(('zone', f'expected the zone to be read after the seconds and after the fraction digits, seen: {sorted(zone_kinds)}'))
     if frac_ok != {'with', 'without'}:
         problems.append(('fraction', f'expected Ok paths with and without a fraction, seen: {sorted(frac_ok)}'))
     seen = set()
@@ -309,6 +319,43 @@ def read_side(ctx, facts):
         ctx.finding(f'C13:READ|{k}|{len(seen)}', 'C13 read side', facts.bodies[PARSE]['span'], f'parse_rfc3339: {msg}')
     N.judge(kinds=('ARITH', 'BOUNDS', 'CAST', 'UNWRAP', 'PANIC', 'STDPRE'), allowed_causes=())
     return Rd
+
+
+def digit_test_closure(I, clo):
+    """the closure does nothing but return char::is_ascii_digit of its argument"""
+    if isinstance(clo, str) and clo.endswith('is_ascii_digit') and clo not in I.bodies:
+        return True          # take_while(char::is_ascii_digit): the std function itself
+    b = I.bodies.get(clo)
+    if b is None:
+        return False
+    calls = [blk['term']['func'].get('id') for blk in b['blocks'] if blk['term']['t'] == 'call']
+    branches = [blk for blk in b['blocks'] if blk['term']['t'] == 'switch']
+    return len(calls) == 1 and calls[0] is not None and calls[0].endswith('is_ascii_digit') and not branches
+
+
+def zone_start(Rd, st, po, s, e, inp):
+    """where the text handed to parse_offset starts: byte 19 (no fraction) or 20 + (length of the whole run of ASCII digits from byte 20),
+    and it extends to the end of the input -- 'any number of fraction digits' are skipped, not only those that are converted"""
+    I = Rd.I
+    pst, ident = po[0], po[1]
+    if not I.slice_end_is_len.get(ident, False):
+        return ('?', 'the zone text does not extend to the end of the input')
+    c = const_of(pst, s)
+    if c == 19:
+        return ('after seconds', None)
+    for C, pc in getattr(I, 'prefix_count', {}).items():
+        if pc[2] != 'take_while' or not digit_test_closure(I, pc[1]):
+            continue
+        b2, s2, e2 = Rd.range_of(pst, pc[0])
+        if not (b2 == inp and const_of(pst, s2) == 20 and I.slice_end_is_len.get(pc[0], False)):
+            continue
+        diff = D.aff_add(D.aff_add(s, D.aff_const(20), -1), D.aff_of(C), -1)
+        iv = D.eval_aff(pst, diff)
+        if (not diff.co and diff.c0 == 0) or (iv is not None and iv == (0, 0)):
+            return ('after the digit run', None)
+    where = c if c is not None else str(s)
+    return ('?', f'with a fraction the zone is read from byte {where} on one path; RFC 3339 puts it after the whole run of fraction digits '
+                 f'(20 + the number of leading ASCII digits of the text from byte 20), however many of them are converted')
 
 
 def check_fraction(Rd, st, rest, inp, rec):
